@@ -27,7 +27,8 @@ func TestHandoffGiveUpRace(t *testing.T) {
 		for _, ord := range []string{"fifo", "lifo"} {
 			for _, point := range []string{"acq.enter", "acq.exit"} {
 				for _, waiters := range []int{1, 2} {
-					names := []string{"h", "w1", "w2"}[:1+waiters]
+					names := append(append([]string{}, []string{"h", "w1", "w2"}[:1+waiters]...), "x", "n1", "n2")
+					first := names[:1+waiters]
 					c := newController() // gates enabled later, only for the unblocker
 					s := newScenario(t, c, names)
 					s.settle = func() { s.settleRealTime(3*time.Millisecond, 300*time.Millisecond) }
@@ -61,7 +62,7 @@ func TestHandoffGiveUpRace(t *testing.T) {
 						return true
 					}
 					do(schedStep{A: "start", P: "h", Call: "acquire"})
-					for _, n := range names[1:] {
+					for _, n := range first[1:] {
 						do(schedStep{A: "start", P: n, Call: "acquire"})
 					}
 					// from now on the delegate attempt made by unblock parks
@@ -93,9 +94,26 @@ func TestHandoffGiveUpRace(t *testing.T) {
 							break
 						}
 					}
-					for _, n := range names[1:] {
+					for _, n := range first[1:] {
 						if s.procs[n].state == "calling" {
 							do(schedStep{A: "cancel", P: n})
+						}
+					}
+					// afterwards the limiter is used again: a holder, two new waiters one after the other, a release - the
+					// backlog must still be the callers waiting, served in the configured order
+					do(schedStep{A: "start", P: "x", Call: "acquire"})
+					do(schedStep{A: "start", P: "n1", Call: "acquire"})
+					do(schedStep{A: "start", P: "n2", Call: "acquire"})
+					for round := 0; round < 4; round++ {
+						progressed := false
+						for _, n := range []string{"x", "n1", "n2"} {
+							if s.procs[n].state == "granted" {
+								do(schedStep{A: "start", P: n, Call: "release", Outcome: "success"})
+								progressed = true
+							}
+						}
+						if !progressed {
+							break
 						}
 					}
 					w.write(J{"ev": "End", "trace": trace, "i": i + 1, "obs": s.observe()})
@@ -108,6 +126,84 @@ func TestHandoffGiveUpRace(t *testing.T) {
 		}
 	}
 	_ = fmt.Sprint
+}
+
+// TestReleaseOrder parks a completion BEFORE it gives the token back to the delegate (gate rel.enter), with a caller
+// asleep, for the blocking and deadline limiters and all three outcomes. On this tree nothing has happened yet at
+// that point - the wrapper signals only after the delegate has the token back - so the sleeper sleeps on and is
+// served when the completion is let go. A wrapper that signals first wakes the sleeper too early: it finds no
+// capacity, goes back to sleep, and nobody tells it when the token is finally free (C10).
+func TestReleaseOrder(t *testing.T) {
+	w := newNdWriter(t, filepath.Join(outDir(t), "release_trace.ndjson"))
+	defer w.close()
+	trace := 0
+	for rep := 0; rep < envInt("VERIF_N", 2); rep++ {
+		for _, kind := range []string{"blocking", "deadline"} {
+			for _, outcome := range []string{"success", "ignore", "dropped"} {
+				names := []string{"h", "w1", "w2"}
+				c := newController()
+				s := newScenario(t, c, names)
+				s.settle = func() { s.settleRealTime(3*time.Millisecond, 300*time.Millisecond) }
+				c.emit = s.ev
+				limiter.VerifPoint = nil
+				dl, busy, err := newDelegate(1, rep%2 == 1)
+				if err != nil {
+					t.Fatal(err)
+				}
+				gl := &GatedLimiter{c: c, inner: dl}
+				cfg := wrapCfg{Kind: kind, Ctor: "release-order/" + outcome, Limit: 1, Procs: names}
+				if kind == "deadline" {
+					s.lim = limiter.NewDeadlineLimiter(gl, time.Now().Add(time.Hour), nil)
+					cfg.Deadline = 1000000
+				} else {
+					s.lim = limiter.NewBlockingLimiter(gl, 0, nil)
+				}
+				s.extra = func() J { return J{"busy": busy(), "gauge": int(dl.VerifInFlight()), "t": 0} }
+				w.write(J{"ev": "Reset", "trace": trace, "cfg": cfg, "obs": s.observe()})
+				i := 0
+				do := func(st schedStep) bool {
+					if err := s.apply(st); err != nil {
+						t.Logf("trace %d: %v", trace, err)
+						return false
+					}
+					i++
+					w.write(J{"ev": "Step", "trace": trace, "i": i, "step": st, "evs": s.events(), "obs": s.observe()})
+					return true
+				}
+				do(schedStep{A: "start", P: "h", Call: "acquire"})
+				do(schedStep{A: "start", P: "w1", Call: "acquire"})
+				if rep%2 == 1 {
+					do(schedStep{A: "start", P: "w2", Call: "acquire"})
+				}
+				c.mu.Lock()
+				c.enabled["rel.enter"] = true
+				c.mu.Unlock()
+				do(schedStep{A: "start", P: "h", Call: "release", Outcome: outcome})
+				time.Sleep(3 * time.Millisecond) // anything the wrapper did ahead of the completion takes effect now
+				c.mu.Lock()
+				c.enabled = map[string]bool{}
+				c.mu.Unlock()
+				do(schedStep{A: "pass", P: "h", Gate: "rel.enter"})
+				for round := 0; round < 4; round++ {
+					progressed := false
+					for _, n := range names {
+						if s.procs[n].state == "granted" {
+							do(schedStep{A: "start", P: n, Call: "release", Outcome: outcome})
+							progressed = true
+						}
+					}
+					if !progressed {
+						break
+					}
+				}
+				w.write(J{"ev": "End", "trace": trace, "i": i + 1, "obs": s.observe()})
+				for _, n := range names {
+					s.procs[n].cancel()
+				}
+				trace++
+			}
+		}
+	}
 }
 
 // TestUnblockRace runs, in real time, a second completion while the first completion's unblock() is parked
